@@ -397,6 +397,7 @@ func c18Scenarios() []c18Scenario {
 		{"sqrt||add||string-readers", 8, [][]c18Call{t(ctxCall1("Sqrt", cSqrt, "t")), t(ctxCall2("Add", cAdd, "a", "b")), t(readers("b", "a"))}, true, 1, 1},
 		{"ln||ln at precision 70 (first use of the constant-table entries beyond 64 digits)", 70, [][]c18Call{t(ctxCall1("Ln", cLn, "a")), t(ctxCall1("Ln", cLn, "t"))}, true, 1, 1},
 		{"ln||log10 at precision 200 (two constant-table entries beyond 64 digits, both tables)", 200, [][]c18Call{t(ctxCall1("Ln", cLn, "t")), t(ctxCall1("Log10", cLog10, "a"))}, true, 1, 1},
+		{"default rounding (empty Rounder on the shared Context): add||mul||round with digits to discard", 3, [][]c18Call{t(ctxCall2("Add", cAdd, "a", "b")), t(ctxCall2("Mul", cMul, "a", "t")), t(ctxCall1("Round", cRound, "b"))}, false, 1, 2},
 		{"exp||exp (shared operand, different destinations)", 9, [][]c18Call{t(ctxCall1("Exp", cExp, "q")), t(ctxCall1("Exp", cExp, "q"))}, true, 1, 1},
 	}
 }
@@ -429,6 +430,10 @@ type c18Runner struct {
 func newRunner(sc c18Scenario, maxOcc int) *c18Runner {
 	sg := saveGlobals()
 	r := &c18Runner{sc: sc, sh: newShared(sc.P), s: sched.New(), sg: sg}
+	if strings.HasPrefix(sc.Name, "default rounding") {
+		r.sh.ctx.Rounding = ""
+		r.sh.init, r.sh.initLocal = r.sh.dump(), r.sh.dumpLocal()
+	}
 	r.s.MaxOcc = maxOcc
 	c18Sched = r.s
 	apd.VerifYield = r.s.Yield
@@ -700,11 +705,19 @@ func C18FreeRun(reps int) int {
 	bad := 0
 	for _, sc := range c18Scenarios() {
 		sh := newShared(sc.P)
+		defaultMode := strings.HasPrefix(sc.Name, "default rounding")
+		if defaultMode {
+			sh.ctx.Rounding = ""
+			sh.init, sh.initLocal = sh.dump(), sh.dumpLocal()
+		}
 		// the concurrent runs come first: lazily initialised package state is then first touched concurrently
 		var outs [][][]string
 		for rep := 0; rep < reps; rep++ {
 			var wg sync.WaitGroup
 			start := make(chan struct{})
+			if defaultMode {
+				sh.ctx.Rounding = "" // every repetition starts from the unresolved default (a lazy resolution is first use each time)
+			}
 			out := make([][]string, len(sc.Threads))
 			for ti, th := range sc.Threads {
 				ti, th := ti, th
